@@ -17,6 +17,7 @@ pub mod c13_names;
 pub mod c16_time;
 pub mod c04_file;
 pub mod c05_rolling;
+pub mod c08_faults;
 pub mod c09_pattern;
 pub mod c10_width;
 pub mod c11_safe;
@@ -43,6 +44,7 @@ pub fn tables() -> Vec<(&'static str, &'static [(&'static str, fn())])> {
         ("c16_time", c16_time::TABLE),
         ("c04_file", c04_file::TABLE),
         ("c05_rolling", c05_rolling::TABLE),
+        ("c08_faults", c08_faults::TABLE),
         ("c09_pattern", c09_pattern::TABLE),
         ("c10_width", c10_width::TABLE),
         ("c11_safe", c11_safe::TABLE),
